@@ -6,6 +6,7 @@ import NitroVerif.Drv.Hash
 import NitroVerif.Drv.Iter
 import NitroVerif.Drv.Own
 import NitroVerif.Drv.Opt
+import NitroVerif.Drv.Log
 
 /-!
 `nvdriver model`  : one case per line on stdin, the model's answer per line on stdout.
@@ -23,6 +24,7 @@ def modelLine (line : String) : String :=
   | "iter" :: rest => Drv.Iter.model rest
   | "own" :: rest => Drv.Own.model rest
   | "opt" :: rest => Drv.Opt.model rest
+  | "log" :: rest => Drv.Log.model rest
   | _ => "bad-op"
 
 def judgeLine (line : String) : String :=
@@ -36,6 +38,7 @@ def judgeLine (line : String) : String :=
     | "iter" :: rest => Drv.Iter.judge rest ans
     | "own" :: rest => Drv.Own.judge rest ans
     | "opt" :: rest => Drv.Opt.judge rest ans
+    | "log" :: rest => Drv.Log.judge rest ans
     | _ => "bad-op"
   | _ => "bad-op"
 
